@@ -3205,3 +3205,20 @@ Proof.
     + destruct (dstep st0 o) as [st1|e]; [|discriminate]. eapply IH; eauto.
     + eapply IH; eauto.
 Qed.
+
+(* ---- liveness in invariant form: a rung whose slots are all handed out stays the current rung only
+   as long as a job of it is still outstanding (pending in the scheduler's map); once every job of the
+   rung has reported or failed, the rung is complete *)
+Theorem rung_waits_only_for_outstanding_jobs : forall rss md ops st bid b sl lv,
+  check_bracket_rungs rss = true -> run_from rss md ops = Ok st ->
+  nth_error (m_brackets (s_mgr st)) bid = Some b -> current_rung_and_level b = Ok (sl, lv) ->
+  first_free_pos b = length sl ->
+  exists t s, lookup t (s_pending st) = Some (bid, s) /\ rung_index s = current_rung b /\
+              (slot_index s < length sl)%nat /\ trial_id s = Some t.
+Proof.
+  intros rss md ops st bid b sl lv CK E Nb C Full.
+  destruct (current_rung_shape _ _ _ _ CK E _ _ _ _ Nb C) as [_ [_ [_ [pos [t0 Np]]]]].
+  assert (Lp : (pos < first_free_pos b)%nat) by (rewrite Full; eapply nth_error_lt; eauto).
+  destruct (pending_slots_have_trials _ _ _ _ CK E _ _ _ _ _ _ Nb C Lp Np) as [t [s [LK [Es [Er [_ Et]]]]]].
+  exists t, s. split; [exact LK|]. split; [exact Er|]. split; [rewrite Es; rewrite <- Full; exact Lp|exact Et].
+Qed.
